@@ -1330,6 +1330,9 @@ func init() {
 			"main-program relative search entries are exercised through the command only (the library resolves them against the process cwd)",
 		},
 		Body: func(c *run.Ctx) {
+			for _, t := range c18OddCases() {
+				kC18Odd.Do(c, t)
+			}
 			r := c.Rand("c18")
 			n := c.N(3000, 40000)
 			for i := 0; i < n; i++ {
